@@ -11,7 +11,8 @@ SPEC = {
         "x/net/html parsing (the parsed document's top-level node kinds are recorded inputs of the root-discovery model)",
         "go/cmd/c01: generator, worker pool (one document per worker call, 10 s in-process watchdog with goroutine dump, 14 s parent watchdog, ulimit -v 3 GiB), recording backend of go/vlib/render, offline URL fetcher (data: URIs through /repo's decoder, a few in-memory files, everything else missing)",
         "a watchdog expiry is re-run once with a longer budget (quick 25 s, thorough 120 s): a document that returns within it counts as Ok (tag slow); Hang = did not return within the long budget",
-        "the abstract page maker of Layout/PageLoop.v (layout of ONE page) enters the theorems through the PROGRESS hypothesis only; its instances in /repo (blocks, lines, tables, flex, grid, columns) are covered by the stream, not by a proof",
+        "the abstract page maker of Layout/PageLoop.v (layout of ONE page) enters the theorems through the PROGRESS hypothesis only; its instances in /repo (blocks, lines, tables, flex, grid, columns) are covered by the stream and, per recorded page, by the page traces (a resume point that repeats = no progress), not by a proof",
+        "hook html/layout/verif_export_c01.go (VerifPageTrace): re-runs the loop of makeAllPages for the first round around /repo's own remakePage, reading pageMaker / reportedFootnotes before and after each page; resume points are compared by their printed form",
     ],
     "not_modelled": [
         "TESTED-ONLY (stream, no theorem): html/layout (blocks, inline, tables, flex, grid, columns, floats, absolute, preferred widths), html/boxes box building, html/document drawing, text engines (pango port and go-text), svg and image rendering, css validation / computed values",
@@ -22,15 +23,20 @@ SPEC = {
               "3": "the worker process died (stack exhaustion / out of memory / unrecovered panic in another goroutine)",
               "4": "the call did not return within the watchdog (10 s, confirmed with the longer budget)",
               "5": "more re-pagination rounds than maxLoops (Layout/PageLoop.v repagination_bounded)",
-              "6": "tree.NewHTML chose a root that is not the first element child (Css/FindRoot.v find_root)"},
+              "6": "tree.NewHTML chose a root that is not the first element child (Css/FindRoot.v find_root)",
+              "7": "page trace: the page-maker bookkeeping of remakePage / the exit test of makeAllPages differs from the model (Layout/PageLoop.v remake_page, replayed page by page)",
+              "8": "page trace: a blank page did not place the first footnote reported to it, or reported more than it received (hypothesis of C01_page_loop_terminates, proved for the loop of makePage: C01_reported_footnotes_decrease) - the page loop does not end",
+              "9": "page trace: a page with content returned a resume point already returned by an earlier page: no measure decreases (PROGRESS hypothesis of C01_page_loop_terminates) - the page loop does not end"},
     "theorems_for_kind": {
         "gen": "specification of C01: rendering returns (C01_page_loop_terminates / C01_repagination_bounded / C01_find_root_is_element for the modelled mechanisms; the rest of the pipeline is tested-only)",
         "corpus": "regression witness of a repaired defect (known_findings.json kind=fixed): rendering returns",
+        "gen-trace": "C01_page_loop_terminates / C01_reported_footnotes_decrease: the recorded first pagination round must be a run of the model of remakePage / makeAllPages on which the hypotheses of the termination theorem hold (Check.C01.replay)",
+        "corpus-trace": "C01_page_loop_terminates / C01_reported_footnotes_decrease on the recorded first pagination round of a regression witness (Check.C01.replay)",
     },
-    "rule": "SplitMix64-seeded random documents: tag soup from a ~60-tag pool (tables/lists/forms/svg/img/br/hr/pre; comments, doctype, stray text anywhere incl. before <html>; nesting up to 60; bidi/RTL text, long words, entities) x random CSS (author <style>, user sheets, inline style; valid and broken; display/float/position/columns/flex/grid/table values; custom properties incl. cycles; @counter-style incl. cycles and zero weights; @page incl. degenerate sizes; break-*; transforms; content/quotes/counters; images with data: URIs and missing files) x presentational hints on/off x both text engines; corpus/C01 witnesses first (each with both engines); non-trivial = more than 3 structural pieces; distinct by html+css+configuration",
+    "rule": "SplitMix64-seeded random documents: tag soup from a ~60-tag pool (tables/lists/forms/svg/img/br/hr/pre; comments, doctype, stray text anywhere incl. before <html>; nesting up to 60; bidi/RTL text, long words, entities) x random CSS (author <style>, user sheets, inline style; valid and broken; display/float/position/columns/flex/grid/table values; custom properties incl. cycles + a custom-property graph dimension (2..5 properties, cyclic / acyclic / self / undefined references, every edge bare or routed through calc()/min()/rgb()/unknown functions/blocks/var() fallbacks, definitions split over ancestors, regular properties using them); a footnote dimension (@page { @footnote { max-height / height .. } }, float: footnote elements higher than the area / the page, footnote-policy / -display, call / marker pseudo-elements, footnotes in columns); @counter-style incl. cycles and zero weights; @page incl. degenerate sizes; break-*; transforms; content/quotes/counters; images with data: URIs and missing files) x presentational hints on/off x both text engines; corpus/C01 witnesses first (each with both engines); non-trivial = more than 3 structural pieces; distinct by html+css+configuration. Page traces (second kind of case): the first pagination round of every document with float: footnote, of every 4th other document and of every document that did not return, recorded page by page through the hook layout.VerifPageTrace (page cap 60) and replayed on the model",
 }
 MANIFEST = {
-    "text": "Coq theorems for the mechanisms the property names: the page loop of makeAllPages/remakePage (port over an abstract page maker) returns without panic within an explicit fuel under the PROGRESS hypothesis (pageIsEmpty rule), the re-pagination loop runs at most maxLoops=8 rounds, root discovery after html.Parse is total and returns the first element child (the unchanged code is refuted: comment before <html>); cycle guards / var() / tokenizer / counter totalities are proved under C18, C19, C08, C06, C07, C04. The rest of the pipeline is covered by a whole-pipeline random stream (NewHTML -> Render -> Write on a recording backend, one document per watchdog-ed worker) whose observable Ok | Panic(site) | Fatal | Hang is compared with the specification 'returns' on every run.",
+    "text": "Coq theorems for the mechanisms the property names: the page loop of makeAllPages/remakePage (port over an abstract page maker) returns without panic within an explicit fuel under the PROGRESS hypothesis (pageIsEmpty rule), the loop of makePage over reported footnotes always places the first one (so blank pages strictly shrink the list; refuted without the `i != 0` guard), the re-pagination loop runs at most maxLoops=8 rounds, root discovery after html.Parse is total and returns the first element child (the unchanged code is refuted: comment before <html>); cycle guards / var() / tokenizer / counter totalities are proved under C18, C19, C08, C06, C07, C04. The rest of the pipeline is covered by a whole-pipeline random stream (NewHTML -> Render -> Write on a recording backend, one document per watchdog-ed worker) whose observable Ok | Panic(site) | Fatal | Hang is compared with the specification 'returns' on every run.",
     "note": "PARTIAL: 'never crashes' over ~50k lines of layout / drawing / text code is not a theorem; it is tested-only by the stream (panic sites grouped by first /repo frame, failing documents shrunk structurally, known findings matched by site + structural trigger tags). Later re-pagination rounds (page re-use) are stated, not proved. Slow-but-terminating layouts (narrow columns with long words, nested multi-column) are reported as Ok/slow when they return within the second watchdog.",
-    "technique": "Coq proof over executable models of the named mechanisms + whole-pipeline crash/hang stream compared with the specification 'returns' (vm_compute over the recorded cases)",
+    "technique": "Coq proof over executable models of the named mechanisms + whole-pipeline crash/hang stream compared with the specification 'returns' + page-by-page replay of the recorded first pagination round on the page-loop model with the theorem's hypotheses checked on every recorded page (vm_compute over the recorded cases)",
 }
